@@ -172,53 +172,90 @@ type listener struct {
 	bs       *bootstrap
 	url      string
 	option   []transport.Option
+	mutex    sync.Mutex // guards options, acceptor and closed
 	options  *transport.Options
 	acceptor transport.Acceptor
+	closed   bool
 }
 
 // Acceptor returned the acceptor
 func (l *listener) Acceptor() transport.Acceptor {
+	l.mutex.Lock()
+	defer l.mutex.Unlock()
 	return l.acceptor
 }
 
 // Close listener
 func (l *listener) Close() error {
 	l.bs.removeListener(l.url)
-	if l.acceptor != nil {
-		return l.acceptor.Close()
+
+	// a Sync that has not created its acceptor yet will see the closed flag,
+	// one that is creating it right now is waited for.
+	l.mutex.Lock()
+	l.closed = true
+	acceptor := l.acceptor
+	l.mutex.Unlock()
+
+	if acceptor != nil {
+		return acceptor.Close()
 	}
 	return nil
+}
+
+// listen creates the acceptor unless the listener or the bootstrap has been closed already.
+func (l *listener) listen() (transport.Acceptor, *transport.Options, error) {
+	l.mutex.Lock()
+	defer l.mutex.Unlock()
+
+	if nil != l.acceptor {
+		return nil, nil, fmt.Errorf("duplicate call Listener:Sync")
+	}
+
+	if l.closed {
+		return nil, nil, ErrServerClosed
+	}
+
+	select {
+	case <-l.bs.Context().Done():
+		return nil, nil, ErrServerClosed
+	default:
+	}
+
+	options, err := transport.ParseOptions(l.bs.Context(), l.url, l.option...)
+	if nil != err {
+		return nil, nil, err
+	}
+
+	acceptor, err := l.bs.transportFactory.Listen(options)
+	if nil != err {
+		return nil, nil, err
+	}
+
+	l.options, l.acceptor = options, acceptor
+	return acceptor, options, nil
 }
 
 // Sync accept new transport from listener
 func (l *listener) Sync() error {
 
-	if nil != l.acceptor {
-		return fmt.Errorf("duplicate call Listener:Sync")
-	}
-
-	var err error
-	if l.options, err = transport.ParseOptions(l.bs.Context(), l.url, l.option...); nil != err {
-		return err
-	}
-
-	if l.acceptor, err = l.bs.transportFactory.Listen(l.options); nil != err {
+	acceptor, options, err := l.listen()
+	if nil != err {
 		return err
 	}
 
 	for {
 		// accept the transport
-		t, err := l.acceptor.Accept()
+		t, err := acceptor.Accept()
 		if nil != err {
 			select {
-			case <-l.options.Context.Done():
+			case <-options.Context.Done():
 				return ErrServerClosed
 			default:
 				return err
 			}
 		}
 
-		l.bs.ServeChannel(l.options.Context, t, l.options.Attachment, true)
+		l.bs.ServeChannel(options.Context, t, options.Attachment, true)
 	}
 }
 
